@@ -17,12 +17,16 @@
 //!    and other unusual spellings; max-length absent / = length / longer / family
 //!    maximum; key info of 0..4 and 91 octets; 0..3 providers), all sections
 //!    combined over small menus with the ASPA sections absent / empty /
-//!    filled: compact, pretty, writer forms parsed back; `iter_payload`.
+//!    filled: compact, pretty, writer forms parsed back; `iter_payload`;
+//!  * the writer as a dimension: `to_writer` / `to_writer_pretty` into sinks that
+//!    take only part of a buffer per call, fixed slices, interrupted, buffered and
+//!    failing sinks, read back through slow readers.
 //!
 //! Reference model: plain tuples; the drop predicate is written from RFC 8416
 //! section 3.3 / the property text; prefix covering is decided on integers.
 
 use std::collections::BTreeMap;
+use std::io::{self, Read, Write};
 use std::net::{IpAddr, Ipv4Addr, Ipv6Addr};
 use std::str::FromStr;
 use std::sync::Mutex;
@@ -242,6 +246,125 @@ impl MFile {
                 opt("aspaAssertions", self.aa.as_ref().map(|l| arr(l, |x| x.json())))]))),
         ])
     }
+}
+
+//------------ sinks and sources for the writer dimension --------------------
+
+/// Accepts at most `k` octets per call.
+struct Chunk { k: usize, got: Vec<u8> }
+impl Write for Chunk {
+    fn write(&mut self, b: &[u8]) -> io::Result<usize> { let n = b.len().min(self.k); self.got.extend_from_slice(&b[..n]); Ok(n) }
+    fn flush(&mut self) -> io::Result<()> { Ok(()) }
+}
+/// Takes one octet on the first call, everything afterwards.
+struct FirstOne { first: bool, got: Vec<u8> }
+impl Write for FirstOne {
+    fn write(&mut self, b: &[u8]) -> io::Result<usize> {
+        let n = if self.first && !b.is_empty() { self.first = false; 1 } else { b.len() };
+        self.got.extend_from_slice(&b[..n]); Ok(n)
+    }
+    fn flush(&mut self) -> io::Result<()> { Ok(()) }
+}
+/// Reports ErrorKind::Interrupted once, then accepts at most `k` per call.
+struct IntrOnce { done: bool, k: usize, got: Vec<u8> }
+impl Write for IntrOnce {
+    fn write(&mut self, b: &[u8]) -> io::Result<usize> {
+        if !self.done { self.done = true; return Err(io::Error::new(io::ErrorKind::Interrupted, "interrupted")) }
+        let n = b.len().min(self.k); self.got.extend_from_slice(&b[..n]); Ok(n)
+    }
+    fn flush(&mut self) -> io::Result<()> { Ok(()) }
+}
+/// Accepts `left` octets in total, then fails for good.
+struct FailAfter { left: usize, got: Vec<u8> }
+impl Write for FailAfter {
+    fn write(&mut self, b: &[u8]) -> io::Result<usize> {
+        if self.left == 0 { return Err(io::Error::new(io::ErrorKind::Other, "sink broke")) }
+        let n = b.len().min(self.left); self.left -= n; self.got.extend_from_slice(&b[..n]); Ok(n)
+    }
+    fn flush(&mut self) -> io::Result<()> { Ok(()) }
+}
+/// Returns at most `k` octets per call.
+struct ChunkReader<'a> { data: &'a [u8], k: usize }
+impl Read for ChunkReader<'_> {
+    fn read(&mut self, b: &mut [u8]) -> io::Result<usize> {
+        let n = b.len().min(self.k).min(self.data.len());
+        b[..n].copy_from_slice(&self.data[..n]); self.data = &self.data[n..]; Ok(n)
+    }
+}
+
+#[derive(Clone, Copy, Debug, PartialEq, Eq)]
+enum Sink { Vec, Chunk(usize), FirstOne, SliceExact, SlicePlus(usize), SliceShort(usize), SliceEmpty, Intr(usize), Buf(usize, usize), FailAfter(usize) }
+
+impl Sink {
+    /// whether the sink can take a whole document
+    fn healthy(self) -> bool { !matches!(self, Sink::SliceShort(_) | Sink::SliceEmpty | Sink::FailAfter(_)) }
+    fn all() -> Vec<Sink> {
+        let mut v = vec![Sink::Vec];
+        for k in [1usize, 2, 7, 64, 4096] { v.push(Sink::Chunk(k)) }
+        v.extend([Sink::FirstOne, Sink::SliceExact, Sink::SlicePlus(10), Sink::SliceShort(1), Sink::SliceShort(17), Sink::SliceEmpty, Sink::Intr(usize::MAX), Sink::Intr(7)]);
+        for (cap, k) in [(8192usize, 1usize), (8192, 7), (8192, 4096), (16, 1), (1, 2), (65536, 64)] { v.push(Sink::Buf(cap, k)) }
+        v.extend([Sink::FailAfter(0), Sink::FailAfter(10)]);
+        v
+    }
+    /// Runs to_writer / to_writer_pretty into the sink; returns the result and what the sink received.
+    fn run(self, f: &SlurmFile, pretty: bool, doc_len: usize) -> (Result<(), String>, Vec<u8>) {
+        fn go(f: &SlurmFile, pretty: bool, w: impl Write) -> Result<(), String> {
+            if pretty { f.to_writer_pretty(w) } else { f.to_writer(w) }.map_err(|e| format!("{:?}: {e}", e.kind()))
+        }
+        match self {
+            Sink::Vec => { let mut v = Vec::new(); let r = go(f, pretty, &mut v); (r, v) }
+            Sink::Chunk(k) => { let mut w = Chunk { k, got: Vec::new() }; let r = go(f, pretty, &mut w); (r, w.got) }
+            Sink::FirstOne => { let mut w = FirstOne { first: true, got: Vec::new() }; let r = go(f, pretty, &mut w); (r, w.got) }
+            Sink::Intr(k) => { let mut w = IntrOnce { done: false, k, got: Vec::new() }; let r = go(f, pretty, &mut w); (r, w.got) }
+            Sink::FailAfter(n) => { let mut w = FailAfter { left: n, got: Vec::new() }; let r = go(f, pretty, &mut w); (r, w.got) }
+            Sink::SliceExact | Sink::SlicePlus(_) | Sink::SliceShort(_) | Sink::SliceEmpty => {
+                let size = match self { Sink::SliceExact => doc_len, Sink::SlicePlus(n) => doc_len + n, Sink::SliceShort(n) => doc_len.saturating_sub(n), _ => 0 };
+                let mut buf = vec![0u8; size];
+                let mut cur = io::Cursor::new(&mut buf[..]);
+                let r = go(f, pretty, &mut cur);
+                let n = cur.position() as usize;
+                buf.truncate(n);
+                (r, buf)
+            }
+            Sink::Buf(cap, k) => {
+                let mut bw = io::BufWriter::with_capacity(cap, Chunk { k, got: Vec::new() });
+                let r = go(f, pretty, &mut bw).and_then(|_| bw.flush().map_err(|e| format!("flush: {e}")));
+                match bw.into_inner() { Ok(w) => (r, w.got), Err(e) => (Err(format!("into_inner: {}", e.error())), Vec::new()) }
+            }
+        }
+    }
+}
+
+/// One (file, form, sink) case. Ok from the library obliges the sink to hold a
+/// document that parses back (through slow readers too) to an equal file; an
+/// error is only acceptable from a sink that cannot take the document.
+fn check_sink(lf: &mut Lf, oc: &mut Oc, name: &dyn Fn() -> String, f: &SlurmFile, sink: Sink, pretty: bool) -> u64 {
+    let form = if pretty { "to_writer_pretty" } else { "to_writer" };
+    let reference = if pretty { f.to_string_pretty() } else { f.to_string() };
+    let wit = || format!("file={} form={form} sink={:?}", name(), sink);
+    match guard(|| sink.run(f, pretty, reference.len())) {
+        Err(p) => lf.fail("C15.json.no_panic", wit, || p.clone()),
+        Ok((Err(e), got)) => {
+            if sink.healthy() { lf.fail("C15.json.writer", wit, || format!("{form} failed ({e}) on a sink that accepts everything it is given; {} octets arrived", got.len())) }
+            else { bump(oc, "error-surfaced-from-failing-sink") }
+        }
+        Ok((Ok(()), got)) => {
+            let mut ok = true;
+            for k in [1usize, 7, 4096] {
+                match guard(|| SlurmFile::from_reader(ChunkReader { data: &got, k }).map_err(|e| e.to_string())) {
+                    Ok(Ok(g)) if g == *f => {}
+                    other => {
+                        ok = false;
+                        lf.fail("C15.json.writer", wit, || format!("{form} returned Ok but the sink holds {} octets (to_string form has {}) which read back ({k} octets per read) as {}", got.len(), reference.len(),
+                            match other { Ok(Ok(_)) => "a different file".to_string(), Ok(Err(e)) => format!("error: {e}"), Err(p) => p }));
+                        break
+                    }
+                }
+            }
+            if ok { bump(oc, if !sink.healthy() { "ok-on-failing-sink-with-complete-document" } else if got == reference.as_bytes() { "complete-and-same-octets-as-to_string" } else { "complete-other-octets-than-to_string" }) }
+        }
+    }
+    4
 }
 
 /// IPv6 prefixes whose text form is unusual: IPv4-mapped and IPv4-compatible
@@ -764,6 +887,61 @@ fn main() {
         });
         sp.sample_str(|| files[files.len() - 1].lib().to_string());
         sp.done(true, &format!("all {} menu combinations", files.len()));
+    }
+
+    // ------------------------------------------------------------------ (4b)
+    let sp = ctx.space("json.writers",
+        "the writer as a dimension: to_writer and to_writer_pretty of (A) seven files from 150 octets to > 100 KiB into every sink of the menu, (B) every single-entry file of every section into the sinks {1 octet per call, 7 per call, first call 1 octet, exact slice, slice one short}; sinks: Vec, at most k octets per call (k = 1,2,7,64,4096), first call takes 1 octet, Cursor over a slice exactly large enough / 10 larger / 1 and 17 too short / empty, ErrorKind::Interrupted once (then everything, then 7 per call), BufWriter (capacity 8192,16,1,65536) around a k-per-call sink, a sink that breaks after 0 / 10 octets. Oracle: if the call returns Ok the octets that arrived must parse back, through readers returning 1, 7 and 4096 octets per call, to an equal file; an error is acceptable only from a sink that cannot take the document; non-trivial = cases whose sink does not take the whole document in one call");
+    {
+        let cyc = |n: usize| -> Vec<MPA> { (0..n).map(|i| pa_entries[i % pa_entries.len()].clone()).collect() };
+        let big_ba: Vec<MBA> = ba_entries.iter().filter(|b| b.info.len() == 91).take(20).cloned().collect();
+        let named: Vec<(&'static str, MFile)> = vec![
+            ("empty", MFile::default()),
+            ("one-prefix-filter", MFile { pf: vec![pf_entries[27].clone()], ..Default::default() }),
+            ("one-of-each", MFile { pf: vec![pf_entries[27].clone()], bf: vec![bf_entries[7].clone()], af: Some(vec![af_entries[11].clone()]), pa: vec![pa_entries[5].clone()], ba: vec![ba_entries[11].clone()], aa: Some(vec![aa_entries[9].clone()]) }),
+            ("medium", MFile { pf: pf_entries.iter().take(12).cloned().collect(), bf: bf_entries.iter().take(6).cloned().collect(), af: Some(af_entries.iter().take(4).cloned().collect()), pa: cyc(10), ba: vec![], aa: None }),
+            ("over-8KiB", MFile { pf: vec![], bf: vec![], af: None, pa: cyc(60), ba: big_ba.clone(), aa: Some(aa_entries.iter().take(10).cloned().collect()) }),
+            ("over-64KiB", MFile { pf: pf_entries.clone(), bf: bf_entries.clone(), af: Some(af_entries.clone()), pa: cyc(600), ba: big_ba.clone(), aa: Some(aa_entries.clone()) }),
+            ("over-100KiB-assertions-only", MFile { pa: cyc(1500), ..Default::default() }),
+        ];
+        let sinks = Sink::all();
+        let mut work: Vec<(usize, Sink, bool)> = Vec::new();
+        for i in 0..named.len() { for &s in &sinks { for pretty in [false, true] { work.push((i, s, pretty)) } } }
+        let libs: Vec<SlurmFile> = named.iter().map(|(_, m)| m.lib()).collect();
+        work.par_iter().for_each(|&(i, sink, pretty)| {
+            let mut lf = Lf::new(); let mut oc = Oc::new();
+            let ev = check_sink(&mut lf, &mut oc, &|| format!("{} ({} octets compact)", named[i].0, libs[i].to_string().len()), &libs[i], sink, pretty);
+            sp.evals(ev); if sink != Sink::Vec && sink != Sink::SliceExact && !matches!(sink, Sink::SlicePlus(_)) { sp.nontrivial(1) }
+            sp.merge_outcomes(&oc);
+        });
+        // SlurmFile::default() itself (version 2, no ASPA sections)
+        {
+            let mut lf = Lf::new(); let mut oc = Oc::new(); let d = SlurmFile::default();
+            for &s in &sinks { for pretty in [false, true] { sp.evals(check_sink(&mut lf, &mut oc, &|| "SlurmFile::default()".to_string(), &d, s, pretty)); sp.nontrivial(1) } }
+            sp.merge_outcomes(&oc);
+        }
+        // (B) every single-entry file
+        let mut singles: Vec<MFile> = Vec::new();
+        for e in &pf_entries { singles.push(MFile { pf: vec![e.clone()], ..Default::default() }) }
+        for e in &bf_entries { singles.push(MFile { bf: vec![e.clone()], ..Default::default() }) }
+        for e in &af_entries { singles.push(MFile { af: Some(vec![e.clone()]), ..Default::default() }) }
+        for e in &pa_entries { singles.push(MFile { pa: vec![e.clone()], ..Default::default() }) }
+        for e in &ba_entries { singles.push(MFile { ba: vec![e.clone()], ..Default::default() }) }
+        for e in &aa_entries { singles.push(MFile { aa: Some(vec![e.clone()]), ..Default::default() }) }
+        let few = [Sink::Chunk(1), Sink::Chunk(7), Sink::FirstOne, Sink::SliceExact, Sink::SliceShort(1)];
+        singles.par_chunks(16).for_each(|ch| {
+            let mut lf = Lf::new(); let mut oc = Oc::new(); let (mut ev, mut nt) = (0u64, 0u64);
+            for m in ch {
+                let f = m.lib();
+                for s in few { for pretty in [false, true] { ev += check_sink(&mut lf, &mut oc, &|| m.text(), &f, s, pretty); if s != Sink::SliceExact { nt += 1 } } }
+            }
+            sp.evals(ev); sp.nontrivial(nt); sp.merge_outcomes(&oc);
+        });
+        sp.set("file_sizes_compact", serde_json::json!(named.iter().zip(libs.iter()).map(|((n, _), f)| (n.to_string(), f.to_string().len())).collect::<BTreeMap<_, _>>()));
+        sp.set("sinks", serde_json::json!(sinks.iter().map(|s| format!("{s:?}")).collect::<Vec<_>>()));
+        sp.set("single_entry_files", serde_json::json!(singles.len()));
+        sp.sample_str(|| format!("file=over-8KiB form=to_writer sink={:?}", Sink::Chunk(7)));
+        sp.done(true, &format!("{} files x {} sinks x 2 forms + {} single-entry files x {} sinks x 2 forms", named.len() + 1, sinks.len(), singles.len(), few.len()));
     }
 
     // ------------------------------------------------------------------ (5)
